@@ -36,13 +36,19 @@ impl HalfBlock {
             upper += glyph.data[i].count_ones() as i32;
             lower += glyph.data[glyph.data.len() / 2 + i].count_ones() as i32;
         }
-        let upper_block_color = if upper > font.size.width * font.size.height / 4 {
+        // the colour the foreground is drawn in: bold turns the colours 0..7 into 8..15, and the flag is not taken over with the colour
+        let foreground = if block.attribute.is_bold() && block.attribute.get_foreground() < 8 {
+            block.attribute.get_foreground() + 8
+        } else {
             block.attribute.get_foreground()
+        };
+        let upper_block_color = if upper > font.size.width * font.size.height / 4 {
+            foreground
         } else {
             block.attribute.get_background()
         };
         let lower_block_color = if lower > font.size.width * font.size.height / 4 {
-            block.attribute.get_foreground()
+            foreground
         } else {
             block.attribute.get_background()
         };
